@@ -52,6 +52,7 @@ def parseCtx (ws : List String) : Option (Bool × Option Nat × Nat) :=
     else if tok = "ctx=own" then some (false, acc.2.1, acc.2.2)
     else if tok = "ctx=shared" then some (true, acc.2.1, acc.2.2)
     else if tok.startsWith "id=" then (tok.drop 3).toString.toNat?.map (fun n => (acc.1, some n, acc.2.2))
+    else if tok.startsWith "reuse=" then (tok.drop 6).toString.toNat?.map (fun _ => acc)   -- an address: not modelled
     else if tok.startsWith "threads=" then (tok.drop 8).toString.toNat?.map (fun n => (acc.1, acc.2.1, n))
     else none) (false, none, 1)
 
@@ -91,6 +92,7 @@ def step (s : DSt) (line : String) : DSt × List String :=
       let mut lo := 0
       let mut hi := 0
       let mut bad := 0
+      let mut lost := 0
       let keep := s.cur
       for i in [0:n] do
         let (s1, k, wid) := st.create shared none
@@ -104,8 +106,19 @@ def step (s : DSt) (line : String) : DSt × List String :=
             | none => false
           | none => false
         if !ok then bad := bad + 1
-        st := s2.drop k
-      return ({ st with cur := keep }, [s!"churn n={n} ids={lo}..{hi} bad={bad}"])
+        -- a creation recorded in a locked section is applied to this world when it is unlocked
+        let (s3, _) := s2.onWorld k "lock"
+        let (s4, _) := s3.onWorld k "create A"
+        let (s5, _) := s4.onWorld k "unlock"
+        let ok2 := match s5.worldSt k with
+          | some ws =>
+            match ws.issued[1]? with
+            | some h => ws.w.isValid h.seen && h.seen.world == wid
+            | none => false
+          | none => false
+        if !ok2 then lost := lost + 1
+        st := s5.drop k
+      return ({ st with cur := keep }, [s!"churn n={n} ids={lo}..{hi} bad={bad} lost={lost}"])
     | _, _ => (s, ["bad-op"])
   | ["world", "reserve"] =>
     let (p', r) := s.p.nextWorldId
